@@ -86,6 +86,7 @@ var (
 	ErrTokenNotFound                        = errors.New("token not found")
 	ErrInvalidEDDSASignature                = errors.New("invalid ed25519 signature")
 	ErrInvalidEDDSAPubKey                   = errors.New("invalid eddsa public key")
+	ErrInvalidECDSAPubKey                   = errors.New("invalid secp256k1 public key")
 	ErrInvalidECDSASignature                = errors.New("invalid secp256k1 signature")
 	ErrInvalidDecompressedECDSAPubKeyLength = errors.New("invalid decompressed secp256k1 public key length")
 	ErrInvalidCompressedECDSAPubKeyLength   = errors.New("invalid compressed secp256k1 public key length")
